@@ -2,14 +2,14 @@
 from . import scal
 
 OWNED = ["C20."]
-REQUIRED = ["C20.weights_are_integers", "C20.nominal_values_normalised", "C20.gradient_normalised", "C20.jacobian_row_max_normalised", "C20.kkt_column_sums_in_1_4", "C20.scaling_point_is_the_user_supplied_one"]
+REQUIRED = ["C20.weights_are_integers", "C20.nominal_values_normalised", "C20.gradient_normalised", "C20.jacobian_row_max_normalised", "C20.kkt_column_sums_in_1_4", "C20.scaling_point_is_the_user_supplied_one", "C20.nonconvergence_is_an_error_not_a_scaling"]
 META = dict(
     functions_encoded=scal.FUNCTIONS,
     stubs=["frexp(v) := (v*2^-e, e) with e the unique integer with 2^(e-1) <= |v| < 2^e, e=0 at 0 (threshold table over the window); ldexp(v,e) := v*2^e (table); sqrt only observed through frexp: exponent thresholds on the radicand", "create_scaling dispatch: uninterpreted user problem evaluated at the scaling point"],
     assumptions=["exact real arithmetic inside the exponent window: every argument of frexp is assumed to lie in the window (counted in the evidence as frexp_window_assumptions)", "float->int dtype stores truncate toward zero as numpy does"],
     bounds=dict(
-        quick="data magnitudes 0 or in [2^-W0, 2^W0], W0=5 (Nominal), 3 (GradJac, KKT); n<=2, Jacobian <= 2x2 incl. duplicate COO entries; KKT <= 2x2, equilibration loop unwound 3; one 1x1 KKT with magnitudes down to 2^-36",
-        thorough="W0=8 (Nominal), 5 (GradJac), 3 (KKT); KKT 3x3; equilibration loop unwound 4",
+        quick="data magnitudes 0 or in [2^-W0, 2^W0], W0=5 (Nominal), 3 (GradJac, KKT); n<=2, Jacobian <= 2x2 incl. duplicate COO entries; KKT <= 2x2, equilibration loop unwound 3; one 1x1 KKT with magnitudes down to 2^-36; one 5x5 KKT without any equilibration into [1,4) (zero Hessian, one row with four entries of magnitude in [1,2)) run through all 100 sweeps of the loop, exponents decided by forking",
+        thorough="W0=8 (Nominal), 5 (GradJac), 3 (KKT); KKT 3x3; equilibration loop unwound 4; non-equilibrable 5x5 with magnitudes in [1/2,2) and 6x6",
     ),
     outside=["magnitudes outside the window", "equilibration runs needing more loop iterations than the unwinding (reported as paths aborted at the bound)", "overflow of the integer weights"],
     explanation="The real scale.py code runs on symbolic magnitudes; z3 proves the [1,2) / [1,4) normalisation ranges from the frexp threshold tables for all values in the window.",
@@ -36,6 +36,13 @@ def tasks(tier):
     t.append(dict(module="scal", fn="h_kkt", shape=dict(W0=3, n=1, m=1, unwind=U), opts=o(8, 24, sqrt_model="lazy")))
     t.append(dict(module="scal", fn="h_kkt", shape=dict(W0=3, n=2, m=0, unwind=U, hdiag_only=q), opts=o(8, 24, sqrt_model="lazy")))
     t.append(dict(module="scal", fn="h_kkt", shape=dict(W0=36, n=1, m=0, unwind=3, tiny=True), opts=o(20, 44, sqrt_model="lazy")))
+    # no equilibration into [1,4) exists (one row coupling four variables that occur nowhere else): the
+    # iteration runs through all of its 100 sweeps; it has to end in the error, not in a returned scaling
+    nc = dict(frexp_window=(-4, 5), exp_window=(-8, 8), timeout_ms=60000, sqrt_model="lazy", frexp_mode="fork")
+    t.append(dict(module="scal", fn="h_kkt", shape=dict(W0=3, n=4, m=1, unwind=101, no_hess=True, jrange=(1.0, 2.0)), opts=nc))
+    if not q:
+        t.append(dict(module="scal", fn="h_kkt", shape=dict(W0=3, n=4, m=1, unwind=101, no_hess=True, jrange=(0.5, 2.0)), opts=nc))
+        t.append(dict(module="scal", fn="h_kkt", shape=dict(W0=3, n=5, m=1, unwind=101, no_hess=True, jrange=(1.0, 2.0)), opts=nc))
     if not q:
         t.append(dict(module="scal", fn="h_kkt", shape=dict(W0=2, n=2, m=1, unwind=U, hdiag_only=True), opts=o(8, 24, sqrt_model="lazy")))
         t.append(dict(module="scal", fn="h_kkt", shape=dict(W0=2, n=1, m=2, unwind=U), opts=o(8, 24, sqrt_model="lazy")))
